@@ -75,6 +75,9 @@ LEN_DEF = {"len(self)": Aff.sym("self.end") - Aff.sym("self.start")}
 
 def r1_affine(ctx):
     r = ctx.r
+    # strengthening only: the three functions are decided by interpretation in R3 (all order types of one block, both
+    # strands); a recognised affine form extends that verdict to all integers
+    r.soften("C01.R1")
     p2r = ctx.repo.fn(f"{LOC}:SingleInterval.parent_to_relative_pos")
     r2p = ctx.repo.fn(f"{LOC}:SingleInterval.relative_to_parent_pos")
     riv = ctx.repo.fn(f"{LOC}:SingleInterval.relative_interval_to_parent_location")
